@@ -1,6 +1,6 @@
 (* C16 — property theorems.  Only statements, [exact lemma] and Print Assumptions. *)
 From Coq Require Import ZArith List.
-From FV Require Import C16.Model C16.Proofs.
+From FV Require Import C16.Model C16.Proofs C16.Proofs2.
 Import ListNotations.
 Open Scope Z_scope.
 
@@ -60,6 +60,34 @@ Theorem split_pp1_preserves : forall (V : Type) (t : pp1 V) (sps : list Z) (ps :
   first_some (fun p => pp1_lookup p g1 g2) ps = pp1_lookup t g1 g2.
 Proof. exact @split_pp1_preserves_lemma. Qed.
 
+(* split_pair_pos_format_2 at ANY strictly increasing class1 split points ending at class1_count: coverage and
+   classdef1 are filtered and re-based per piece (through the real builders), class2 and the rows are shared;
+   the first-match lookup over the pieces equals the original, for every glyph pair *)
+Theorem split_pp2_preserves : forall (V : Type) (t : pp2 V) (sps : list Z) (ps : list (pp2 V)) (g1 g2 : Z),
+  cov_wf (pp2_cov t) -> Forall u16 (cov_iter (pp2_cov t)) ->
+  chain 0 sps (zlen (pp2_matrix t)) -> split_pp2 sps t = Some ps ->
+  first_some (fun p => pp2_lookup p g1 g2) ps = pp2_lookup t g1 g2.
+Proof. exact @split_pp2_preserves_lemma. Qed.
+
+(* split_mark_to_base at ANY strictly increasing mark-class split points ending at mark_class_count: mark
+   coverage / mark array filtered, classes re-based, base-anchor columns sliced; same anchors for every
+   mark/base pair, nothing for pairs without a rule *)
+Theorem split_m2b_preserves : forall (A : Type) (t : m2b A) (sps : list Z) (ps : list (m2b A)) (m b : Z),
+  m2b_cov_ok t -> Forall (fun row => zlen row = m2b_nclass t) (m2b_bases t) ->
+  chain 0 sps (m2b_nclass t) -> split_m2b sps t = Some ps ->
+  first_some (fun p => m2b_lookup p m b) ps = m2b_lookup t m b.
+Proof. exact @split_m2b_preserves_lemma. Qed.
+
+(* promotion to an extension lookup: same answer for every pair through the indirection; flags, mark
+   filtering set and subtable count kept; type 9; every subtable records the old lookup type *)
+Theorem promote_preserves : forall (V A : Type) (l : lookup V A),
+  (forall x y, lookup_apply (promote l) x y = lookup_apply l x y) /\
+  lk_flags (promote l) = lk_flags l /\ lk_mfs (promote l) = lk_mfs l /\
+  length (lk_subs (promote l)) = length (lk_subs l) /\
+  lk_type (promote l) = 9 /\
+  Forall (fun s => exists inner, s = SExt (lk_type l) inner /\ In inner (lk_subs l)) (lk_subs (promote l)).
+Proof. exact @promote_preserves_lemma. Qed.
+
 Print Assumptions coverage_get_spec.
 Print Assumptions coverage_get_spec_chosen_format.
 Print Assumptions coverage_format_choice_irrelevant.
@@ -74,3 +102,6 @@ Print Assumptions split_coverage_preserves.
 Print Assumptions coverage_reader_is_cov_sem.
 Print Assumptions built_coverage_is_wf.
 Print Assumptions split_pp1_preserves.
+Print Assumptions split_pp2_preserves.
+Print Assumptions split_m2b_preserves.
+Print Assumptions promote_preserves.
